@@ -12,6 +12,7 @@ from vlib.enginelab import (
     all_keys,
     drive,
     gen_probe_case,
+    kid,
     simulate,
     stored_times,
 )
@@ -115,7 +116,7 @@ def run_cfg(case, res, judge=True):
     # transition infos: one per transition, in order, never thinned
     tis = results.transition_infos.combine_all().unwrap()
     for ki in range(len(case["kernels"])):
-        ti = tis[f"k{ki}"]
+        ti = tis[kid(ki)]
         res.mon("infos_one_per_transition")
         ec = np.asarray(ti.error_code)
         if ec.shape != (C, T - 1):
@@ -151,11 +152,11 @@ def run_cfg(case, res, judge=True):
         npost = sum(d for ty, d, _ in spec if ty == 4)
         first_post = T - npost  # posterior epochs are last
         for ki in range(len(case["kernels"])):
-            ec = np.asarray(pti[f"k{ki}"].error_code)
+            ec = np.asarray(pti[kid(ki)].error_code)
             if ec.shape != (C, npost):
                 res.violation("posterior-accessor", f"posterior transition infos shape {ec.shape}, expected {(C, npost)}", case)
             elif not case.get("minimize"):
-                times = np.asarray(pti[f"k{ki}"].rec)[:, :, F_TIME]
+                times = np.asarray(pti[kid(ki)].rec)[:, :, F_TIME]
                 if not np.array_equal(times[0], np.arange(first_post, T)):
                     res.violation("posterior-accessor", f"posterior transition infos cover times {times[0].tolist()}", case)
     else:
